@@ -254,18 +254,26 @@ def out_str(done, reqs, refined):
 
 
 def cfg_str(case, alg):
+    """configuration of the model, read from the CASE (what was handed to the constructor), not from the
+    attributes the constructor derived from it — so that a constructor that mangles a parameter
+    (`cost_budget or np.inf`, a clamped batch size, …) disagrees with the model instead of configuring it.
+    Only NaiveElimination's default `L` (formula of C08) is read from the object."""
     name = case["alg"]
     K = 0 if name == "VOGP_AD" else case["K"]
-    costs = getattr(alg, "costs", None)
-    budget = getattr(alg, "cost_budget", None)
-    L = int(alg.L) if name == "NaiveElimination" else 0
-    eps = core.q(alg.epsilon) if name == "Auer" else "0"
-    md = int(alg.max_discretization_depth) if name == "VOGP_AD" else 0
-    br = 2 ** int(alg.design_space.domain_dim) if name == "VOGP_AD" else 0
+    batch = int(case.get("batch", 1)) if name in BATCHED else 1
+    costs = case.get("costs") if name in DECOUPLED else None
+    budget = case.get("budget") if name in DECOUPLED else None
+    if name == "NaiveElimination":
+        L = int(case["L"]) if case.get("L") is not None else int(alg.L)
+    else:
+        L = 0
+    eps = core.q(float(case.get("eps", 0.25))) if name == "Auer" else "0"
+    md = int(case.get("depth_max", 3)) if name == "VOGP_AD" else 0
+    br = 2 ** len(case.get("coef", [[0]])) if name == "VOGP_AD" else 0
     return ":".join([
-        ALG_TAG[name], str(K), str(case["m"]), str(int(getattr(alg, "batch_size", 1))),
-        "none" if costs is None else core.qvec(costs),
-        "inf" if (budget is None or budget == np.inf) else core.q(budget),
+        ALG_TAG[name], str(K), str(case["m"]), str(batch),
+        "none" if costs is None else core.qvec([float(x) for x in costs]),
+        "inf" if budget is None else core.q(float(budget)),
         str(L), eps, str(md), str(br)])
 
 
@@ -425,12 +433,14 @@ def base_case(rng, kind, name):
     if K >= 2 and rng.random() < 0.2:
         Y[1] = list(Y[0])
     case = {"kind": kind, "alg": name, "cone": cone, "m": m, "K": K, "Y": Y,
-            "eps": rng.choice([0.125, 0.25, 0.5, 1.0]), "delta": 0.05, "noise_var": 0.015625,
-            "seed": rng.randrange(10 ** 6), "extra": rng.choice([2, 3])}
+            "eps": rng.choice([0.125, 0.25, 0.5, 1.0, 1.0 / 1024, 1.0 / 2 ** 20]), "delta": 0.05,
+            "noise_var": 0.015625, "seed": rng.randrange(10 ** 6), "extra": rng.choice([2, 3])}
     if name in BATCHED:
-        bmode = rng.choice(["one", "small", "small", "exceed", "exceed-later"])
+        bmode = rng.choice(["one", "small", "small", "all", "exceed", "exceed-later"])
         if bmode == "one":
             b = 1
+        elif bmode == "all":
+            b = max(1, K)
         elif bmode == "small":
             b = rng.randint(1, max(1, min(4, K)))
         elif bmode == "exceed":
@@ -438,30 +448,41 @@ def base_case(rng, kind, name):
         else:
             b = max(1, K - rng.randint(0, 1))
         case["batch"], case["batch_mode"] = b, bmode
-    if name.startswith("PaVeBaPartialGP"):
-        cmode = rng.choice(["none", "costs", "budget", "exact-budget", "exact-budget"])
-        if cmode == "costs":
-            case["costs"] = [rng.choice([0.5, 1.0, 2.0]) for _ in range(m)]
-        elif cmode == "budget":
-            case["costs"] = [rng.choice([0.5, 1.0, 2.0]) for _ in range(m)]
-            case["budget"] = rng.choice([1.0, 2.5, 4.0, 7.0])
-        elif cmode == "exact-budget":
-            c = rng.choice([0.5, 1.0, 2.0])
-            case["costs"] = [c] * m
-            case["budget"] = c * case.get("batch", 1) * rng.randint(1, 3)
-        case["cost_mode"] = cmode
-    if name == "DecoupledGP":
-        cmode = rng.choice(["mixed", "exact-budget", "zero-budget"])
+    if name in DECOUPLED:
+        # degenerate-but-supported values on purpose: falsy budgets (0 and 0.0 mean "finished at once", not
+        # "no budget"), a budget below one evaluation, budgets hit exactly after 1 / k batches, equal costs,
+        # a zero cost entry, a budget without costs (PaVeBaPartialGP: total_cost then never moves)
+        modes = ["mixed", "mixed", "exact-one-batch", "exact-k-batches", "zero-int", "zero-float", "tiny", "zero-cost-entry"]
+        if name != "DecoupledGP":
+            modes += ["none", "costs-only", "budget-no-costs", "zero-no-costs"]
+        cmode = rng.choice(modes)
+        b = case.get("batch", 1)
+        equal = [rng.choice([0.5, 1.0, 2.0])] * m
+        mixed = [rng.choice([0.5, 1.0, 2.0]) for _ in range(m)]
         if cmode == "mixed":
-            case["costs"] = [rng.choice([0.5, 1.0, 2.0]) for _ in range(m)]
-            case["budget"] = rng.choice([1.0, 2.5, 4.0, 7.0])
-        elif cmode == "exact-budget":
-            c = rng.choice([0.5, 1.0, 2.0])
-            case["costs"] = [c] * m
-            case["budget"] = c * case.get("batch", 1) * rng.randint(1, 4)
-        else:
-            case["costs"] = [1.0] * m
-            case["budget"] = 0.0
+            case["costs"], case["budget"] = mixed, rng.choice([1.0, 2.5, 4.0, 7.0])
+        elif cmode == "exact-one-batch":
+            case["costs"], case["budget"] = equal, equal[0] * b
+        elif cmode == "exact-k-batches":
+            case["costs"], case["budget"] = equal, equal[0] * b * rng.randint(2, 4)
+        elif cmode == "zero-int":
+            case["costs"], case["budget"] = rng.choice([equal, mixed]), 0
+        elif cmode == "zero-float":
+            case["costs"], case["budget"] = rng.choice([equal, mixed]), 0.0
+        elif cmode == "tiny":
+            case["costs"], case["budget"] = mixed, 1.0 / 2 ** 20
+        elif cmode == "zero-cost-entry":
+            z = list(mixed)
+            z[rng.randrange(m)] = 0.0
+            case["costs"], case["budget"] = z, rng.choice([0.5, 2.0, 4.0])
+        elif cmode == "costs-only":
+            case["costs"] = mixed
+        elif cmode == "budget-no-costs":
+            case["budget"] = rng.choice([1.0, 4.0])
+        elif cmode == "zero-no-costs":
+            case["budget"] = rng.choice([0, 0.0])
+        if name == "DecoupledGP" and "costs" not in case:
+            case["costs"] = equal
         case["cost_mode"] = cmode
     if name == "VOGP_AD":
         in_dim = rng.choice([1, 1, 2])
@@ -495,8 +516,8 @@ def gen_real_case(rng, name=None, tier="quick"):
     if name == "Auer":
         case["empirical_beta"] = rng.random() < 0.5
     if name == "NaiveElimination":
-        lm = rng.choice(["zero", "small", "small", "default"])
-        case["L"] = {"zero": 0, "small": rng.randint(1, 6), "default": None}[lm]
+        lm = rng.choice(["zero", "one", "small", "small", "default"])
+        case["L"] = {"zero": 0, "one": 1, "small": rng.randint(1, 6), "default": None}[lm]
         if lm == "default":
             case["cone"] = ["theta2", rng.choice([45, 90, 120])]
             case["m"] = 2
@@ -528,6 +549,22 @@ def structured_cases():
             c2 = dict(c)
             c2["batch"], c2["batch_mode"] = 6, "exceed"
             out.append(c2)
+    # falsy / boundary budgets: 0 and 0.0 are budgets that are reached before the first sample
+    for name in ("PaVeBaPartialGP-rect", "PaVeBaPartialGP-ell", "DecoupledGP"):
+        for kind in ("table", "real"):
+            if kind == "table" and name == "DecoupledGP":
+                continue
+            for budget in (0, 0.0, 1.0 / 2 ** 20, 2.0):
+                c = {"kind": kind, "alg": name, "cone": "orthant2", "m": 2, "K": 4, "Y": Y2[:4], "eps": 0.25,
+                     "delta": 0.05, "noise_var": 0.015625, "seed": 13, "extra": 3, "batch": 2, "costs": [1.0, 1.0],
+                     "budget": budget, "var0": 0.25, "shrink": 0.5, "profile": dict(PROFILES[4])}
+                out.append(c)
+    out.append({"kind": "real", "alg": "PaVeBaPartialGP-ell", "cone": "orthant2", "m": 2, "K": 3, "Y": Y2[:3],
+                "eps": 0.25, "delta": 0.05, "noise_var": 0.015625, "seed": 14, "extra": 3, "batch": 1, "budget": 0,
+                "var0": 0.25, "shrink": 0.5})
+    for L in (0, 1):
+        out.append({"kind": "real", "alg": "NaiveElimination", "cone": "orthant2", "m": 2, "K": 1, "Y": Y2[:1],
+                    "eps": 1.0 / 1024, "delta": 0.05, "noise_var": 0.015625, "seed": 15, "extra": 3, "L": L})
     # VOGP_AD: a member of P below the maximum depth gets refined (unreachable from the constructor:
     # P only receives nodes of maximal depth) — children must replace it in P
     for seed in (1, 2):
@@ -799,7 +836,7 @@ def _run(ctx, case, name, kind):
         if last["sc"] != len(total_reqs):
             viol(ctx, f"sample-count-total:{name}", f"sample_count {last['sc']} but {len(total_reqs)} evaluations "
                           "were requested from the problem", pub)
-        costs = getattr(alg, "costs", None)
+        costs = case.get("costs") if name in DECOUPLED else None
         if costs is not None and hasattr(alg, "total_cost"):
             want = sum((core.frac(costs[o]) for _, o in total_reqs if o is not None), Fraction(0))
             if want != last["cost"]:
